@@ -55,6 +55,9 @@ CLAIMED = {
  "C12": dict(tech="abstract interpretation of both code generators: emit2 (Colang 2.x expanders: label/fork closure, scope pairing on the generated CFG), dispatch-exhaustiveness tables (grammar ops / element classes / slide branches), emit1 (Colang 1.0: affine identities of relative jump offsets)",
              text="Decides the property on the generators rather than on sampled programs: every label/fork reference of every template resolves inside the template, scopes are closed on every exit (F6: `when...else` - known finding), composite elements and ops never survive the fixpoint, break/continue labels are filled, and the Colang 1.0 offsets land on their intended targets. Facts about individual shipped .co files are subsumed by the generator-level result.",
              ref="DESIGN.md C12"),
+ "C14": dict(tech="affine layout interpretation (emit1) of the Colang 1.0 offset computer with symbolic block lengths, case split on else, universally quantified loop index, unrolled branches; offset-key writer/reader agreement; opcode exhaustiveness; effect analysis (fresh state, stores into shared flow elements only under never-read keys) over the call graph of compute_next_steps",
+             text="Decides, as algebraic identities valid for all block lengths, that every relative offset the Colang 1.0 compiler emits for if/else, while/break/continue, branch blocks and gotos equals the distance to the element the source construct designates; that the runtime reads exactly the keys the compiler writes; that every emitted element type has a consumer; and that deciding the next step cannot observably mutate shared configuration. The replay semantics of compute_next_state is not decided.",
+             ref="DESIGN.md C14"),
 }
 NA = {
  "C18": "equality of string results over all chunkings of a stateful transducer; no structural necessary condition that is not a brittle proxy (DESIGN.md C18)",
